@@ -30,10 +30,10 @@ pub fn build_ex_pair(
     first_id: &str,
     other_id: &str,
 ) -> Sm2Result<(Exchange, Exchange)> {
-    let (pk_a, sk_a) = gen_keypair().unwrap();
-    let (pk_b, sk_b) = gen_keypair().unwrap();
-    let user_a = Exchange::new(klen, Some(first_id), &pk_a, &sk_a, Some(other_id), &pk_b).unwrap();
-    let user_b = Exchange::new(klen, Some(other_id), &pk_b, &sk_b, Some(first_id), &pk_a).unwrap();
+    let (pk_a, sk_a) = gen_keypair()?;
+    let (pk_b, sk_b) = gen_keypair()?;
+    let user_a = Exchange::new(klen, Some(first_id), &pk_a, &sk_a, Some(other_id), &pk_b)?;
+    let user_b = Exchange::new(klen, Some(other_id), &pk_b, &sk_b, Some(first_id), &pk_a)?;
     Ok((user_a, user_b))
 }
 
